@@ -34,6 +34,42 @@ TABLE = {
           ('closing_edge_refused_acyclic_edge_accepted', 'add_edge_cyclic_iff Names.parse Names.fmt', ['add_edge_cyclic_iff_statement']),
           ('is_dag_iff_all_directed_and_acyclic', 'is_dag_spec Names.parse', []),
           ]),
+ 'C03': ('Base Digraph Names Graph GraphObs GraphInv GraphAtomicLemmas GraphAtomicProofs',
+         'C03 — a rejected mutation leaves the graph exactly as it was.\n'
+         '    [equiv] allows only the insertion order of the edge indexes and of the per-node directed lists to differ\n'
+         '    (what a failed-and-restored change_edge_type / replace_edge leaves behind); every observation is insensitive to it.',
+         [('rejected_single_element_mutator_is_unobservable', 'failed_step_noop Names.parse Names.fmt', ['failed_step_noop_statement']),
+          ('rejected_single_element_mutator_leaves_equivalent_state', 'failed_step_equiv Names.parse Names.fmt', ['failed_step_equiv_statement']),
+          ('equivalent_states_are_observationally_equal', 'observe_equiv Names.parse', ['observe_equiv_statement']),
+          ('all_but_retyping_mutators_leave_the_state_literally_unchanged', 'failed_step_exact Names.parse Names.fmt', []),
+          ('rejected_add_edge_leaves_no_implicit_nodes', '@at_add_edge_fail Names.parse', []),
+          ]),
+ 'C07': ('Base Names Graph GraphObs GraphInv Equality EqualityProofs Extracted Facts',
+         'C07 — graph equality is a structural equivalence relation.\n'
+         '    [graph_eqb] follows CausalGraph.__eq__ statement by statement (an error value where Python would raise);\n'
+         '    [canon] forgets construction order and orients the symmetric edge types (-- <> oo) by endpoint order.',
+         [('never_raises', '@graph_eq_never_raises Names.parse', []),
+          ('deep_never_raises', '@deep_eq_never_raises Names.parse', []),
+          ('equal_iff_same_canonical_form', '@graph_eq_char Names.parse', []),
+          ('deep_equal_iff_same_deep_canonical_form', '@deep_eq_char Names.parse', []),
+          ('reflexive', '@graph_eq_refl Names.parse', []),
+          ('symmetric', '@graph_eq_sym Names.parse', []),
+          ('transitive', '@graph_eq_trans Names.parse', []),
+          ('ne_is_negation', '@graph_ne_negb Names.parse', []),
+          ('deep_implies_shallow', '@deep_implies_shallow Names.parse', []),
+          ('independent_of_construction_order', '@graph_eq_order_independent Names.parse', []),
+          ('skeleton_never_raises', '@skeleton_eq_never_raises Names.parse', []),
+          ('skeleton_equal_iff_same_canonical_form', '@skeleton_eq_char Names.parse', []),
+          ('skeleton_deep', '@skeleton_deep_eq_char Names.parse', []),
+          ('skeleton_symmetric', '@skeleton_eq_sym Names.parse', []),
+          ('skeleton_transitive', '@skeleton_eq_trans Names.parse', []),
+          ('edge_equality_is_an_equivalence', 'edge_eq_equiv', []),
+          ('edge_pair_test_is_canonical_form_equality', 'edge_pair_test_canon', []),
+          ('node_equality_symmetric', 'node_eqb_sym', []),
+          ('node_equality_transitive', 'node_eqb_trans', []),
+          ('dont_care_direction_list_in_source_is_the_modelled_one', 'dont_care_direction_set', []),
+          ('edge_type_spellings_in_source_are_the_modelled_ones', 'edge_type_values_exact', []),
+          ]),
  'C10': ('Base Digraph DigraphProofs Queries QueriesProofs',
          'C10 — structural queries agree with their graph-theoretic definitions.',
          [('descendants_are_directed_reachability', '@desc_spec', []),
@@ -95,6 +131,60 @@ TABLE = {
           ('time_sorted_topological_order_exists', '@time_topo_exists', []),
           ('return_all_is_exactly_the_time_sorted_topological_orders', '@all_time_topo_spec', []),
           ('time_sorted_orders_nonempty', '@all_time_topo_nonempty', []),
+          ]),
+ 'C14': ('Base Digraph TSGraph TSGraphProofs MinimalProofs',
+         'C14 — the minimal graph is exactly the set of lag-invariant edge templates.\n'
+         '    NOT proved in general (statement kept in MinimalProofs.v): adj_matrices_statement (adjacency_matrices = the template set\n'
+         '    written as one matrix per source lag); it is compared with the implementation on every run instead.',
+         [('minimal_succeeds_on_consistent_input', 'minimal_ok', []),
+          ('minimal_meets_characterisation_and_is_well_formed', 'minimal_spec', []),
+          ('one_edge_per_template_placed_at_lag_0', 'minimal_edges', []),
+          ('keeps_every_variable_adds_nothing_else', 'minimal_nodes', []),
+          ('carries_attributes_of_variable_and_template', 'minimal_attributes', []),
+          ('fixed_point', 'minimal_idem', []),
+          ('result_is_minimal', 'minimal_is_minimal', []),
+          ('is_minimal_iff_equals_minimal_graph', 'is_minimal_iff', []),
+          ('oracle_decides_the_characterisation', 'c14_check_spec', []),
+          ('model_output_passes_the_oracle', 'minimal_check', []),
+          ]),
+ 'C15': ('Base Digraph TSGraph TSGraphProofs MinimalProofs ExtendProofs',
+         'C15 — the extended graph is the exact unrolling of the minimal graph over the window.',
+         [('negative_steps_refused', 'extend_neg', []),
+          ('extend_succeeds_and_meets_characterisation', 'extend_spec', []),
+          ('edges_are_exactly_the_kept_template_copies', 'extend_edges', []),
+          ('nodes_exact_characterisation', 'extend_nodes', []),
+          ('same_parents_up_to_time_shift', 'extend_same_parents', []),
+          ('larger_window_gives_supergraph', 'extend_monotone', []),
+          ('acyclic_minimal_graph_extends_to_acyclic_graph', 'extend_acyclic_digraph', []),
+          ('minimal_graph_of_the_result_is_the_minimal_graph_of_the_input', 'minimal_of_extend', []),
+          ('oracle_decides_the_characterisation', 'c15_check_m_spec', []),
+          ('model_output_passes_the_oracle', 'extend_check', []),
+          ]),
+ 'C16': ('Base Digraph TSGraph TSGraphProofs MinimalProofs ExtendProofs StationaryProofs',
+         'C16 — the stationary graph is the least stationary super-graph; the test agrees.\n'
+         '    NOT proved in general (statements kept in StationaryProofs.v): stat_idem_statement ("is itself stationary": proved is that its\n'
+         '    minimal graph is the minimal graph of the input, stat_minimal) and c16_check_statement (oracle <-> Prop; proved direction:\n'
+         '    the model output satisfies it). Both are evaluated on every implementation output by the correspondence check.',
+         [('stationary_is_window_extension_of_minimal', 'stationary_def', []),
+          ('contains_every_node_and_edge_of_the_input', 'stat_contains_input', []),
+          ('spans_the_window_with_every_variable_at_every_lag', 'stat_window', []),
+          ('contains_every_template_copy_that_fits', 'stat_complete', []),
+          ('has_the_minimal_graph_of_the_input', 'stat_minimal', []),
+          ('is_stationary_false_on_non_dags', 'is_stationary_not_dag', []),
+          ('is_stationary_iff_equals_stationary_graph', 'is_stationary_iff', []),
+          ('is_stationary_graph_iff', 'is_stationary_graph_iff', []),
+          ('model_output_meets_the_characterisation', 'stat_c16_spec', []),
+          ]),
+ 'C17': ('Base Digraph TSGraph TSGraphProofs SummaryProofs',
+         'C17 — the summary graph has one node per variable and an edge per causal link.',
+         [('succeeds_on_every_dag_and_meets_characterisation', 'summary_ok', []),
+          ('only_non_dags_are_refused', 'summary_not_dag', []),
+          ('exactly_one_node_per_variable', 'summary_nodes', []),
+          ('adjacent_iff_some_edge_joins_the_variables', 'summary_adjacent', []),
+          ('directed_iff_all_edges_go_one_way', 'summary_dir', []),
+          ('bidirected_iff_edges_go_both_ways', 'summary_bi', []),
+          ('no_self_edges_one_edge_per_pair', 'summary_no_self', []),
+          ('oracle_decides_the_characterisation', 'c17_check_spec', []),
           ]),
  'C18': ('Base Digraph DigraphProofs DSep DSepProofs Identify IdentifyProofs IdentifyDSep',
          'C18 — identified confounders are common causes that close every back-door path.\n'
